@@ -40,6 +40,9 @@ type vPLScenario struct {
 	StallName string   `json:"stallname"`
 	StallPt   int      `json:"stallpt"`
 	StallOcc  int      `json:"stallocc"`
+	UntilName string   `json:"untilname"`
+	UntilPt   int      `json:"untilpt"`
+	UntilOcc  int      `json:"untilocc"`
 	Trigs     int      `json:"trigs"`
 	Calls     int      `json:"calls"`
 	LTs       int      `json:"lts"`
@@ -211,6 +214,7 @@ func vRunPLControlled(sc *vPLScenario) ([]vOutEvent, map[string]interface{}) {
 	}
 	s.plan = sc.Plan
 	s.stallName, s.stallPt, s.stallOcc = sc.StallName, int32(sc.StallPt), sc.StallOcc
+	s.untilName, s.untilPt, s.untilOcc = sc.UntilName, int32(sc.UntilPt), sc.UntilOcc
 	r := &vPLRun{}
 	r.who = func() string {
 		if a := s.lookup(vGID()); a != nil {
